@@ -160,6 +160,36 @@ fn perform(call: &str, shared: &OpeningHours, ti: usize) -> String {
             let isolated = [alone(paris(), 0), alone(tokyo(), 0), alone(paris(), 0), alone(paris(), 1), alone(tokyo(), 1), alone(tokyo(), 2), alone(paris(), 2)].join(" ");
             format!("{} {}", if inter == isolated { "CONSISTENT" } else { "INCONSISTENT" }, inter)
         }
+        "calendar_rebuild" => {
+            // holiday calendars that follow each other in memory: a context is built, asked, dropped, and another one with other
+            // holidays is built right after (the allocator hands back the freed cells). Whatever the library remembers about "the
+            // calendar" between calls must not outlive it: every answer must be the one of a fresh thread with that calendar
+            use compact_calendar::CompactCalendar;
+            use opening_hours::ContextHolidays;
+            let day = |m: u32, d: u32| NaiveDate::from_ymd_opt(2024, m, d).unwrap();
+            let sets: [Vec<NaiveDate>; 3] = [vec![day(5, 2), day(5, 3), day(12, 31)], vec![day(5, 1), day(12, 25)], vec![day(1, 1), day(4, 30), day(7, 14)]];
+            let src = "24/7 ; PH off";
+            let ask = |set: &Vec<NaiveDate>, t: NaiveDateTime| {
+                let cal: CompactCalendar = set.iter().copied().collect();
+                let oh = OpeningHours::parse(src).unwrap().with_context(Context::default().with_holidays(ContextHolidays::new(Arc::new(cal), Default::default())));
+                let ivs: Vec<_> = oh.iter_range(t, t + chrono::Duration::days(300)).take(4).collect();
+                format!("{:?} {:?}", oh.next_change(t), ivs)
+            };
+            let mut inter = Vec::new();
+            let mut isolated = Vec::new();
+            for round in 0..9usize {
+                let set = sets[[0, 1, 0, 2, 1, 2, 0, 1, 2][round]].clone();
+                let t = [dt("2024-04-29 12:00"), dt("2024-04-30 12:00"), dt("2024-12-24 08:00")][round % 3];
+                inter.push(ask(&set, t));
+                isolated.push(std::thread::spawn(move || {
+                    let cal: CompactCalendar = set.iter().copied().collect();
+                    let oh = OpeningHours::parse("24/7 ; PH off").unwrap().with_context(Context::default().with_holidays(ContextHolidays::new(Arc::new(cal), Default::default())));
+                    let ivs: Vec<_> = oh.iter_range(t, t + chrono::Duration::days(300)).take(4).collect();
+                    format!("{:?} {:?}", oh.next_change(t), ivs)
+                }).join().unwrap_or_else(|_| "PANIC".into()));
+            }
+            format!("{} {}", if inter == isolated { "CONSISTENT" } else { "INCONSISTENT" }, inter.join(" | "))
+        }
         "coords_two_zones" => {
             // the same coordinates under several time zones, interleaved: the local time of a sun event is its absolute instant plus
             // the zone's offset (Sun.tla), so the answers of two zones differ by the difference of their offsets - whatever was
